@@ -169,6 +169,8 @@ impl<F: Float> Transformer<Kernel<F>, DatasetBase<Kernel<F>, Vec<usize>>>
 
         // flatten resulting clusters and reverse index
         let mut tmp = vec![0; num_observations];
+        #[cfg(linfa_verif)]
+        linfa::verif_hooks::note_order("hierarchical.cluster_numbering", clusters.keys());
         for (i, (_, ids)) in clusters.into_iter().enumerate() {
             for id in ids {
                 tmp[id] = i;
